@@ -391,6 +391,29 @@ pub fn corpus(rng: &mut Rng, thorough: bool) -> Vec<Input> {
     for sub in ["NODES", "SLOTS", "KEYSLOT", "", "\u{ff}"] {
         add("cmd:cluster", format!("CLUSTER {}", sub), cmd(&[b"CLUSTER", sub.as_bytes()]), true);
     }
+    // sub-command names are compared case-insensitively byte by byte: multi-byte characters of every
+    // width at the front / the end of names of every byte length (same length as a real sub-command included)
+    for name in ["CLUSTER", "CONFIG", "UMCTL", "COMMAND"] {
+        for len in 2..=10usize {
+            for ch in ["\u{e9}", "\u{4e2d}", "\u{1f600}", "\u{ff}"] {
+                if ch.len() > len {
+                    continue;
+                }
+                let pad = "ab".repeat(6);
+                let front = format!("{}{}", ch, &pad[..len - ch.len()]);
+                let back = format!("{}{}", &pad[..len - ch.len()], ch);
+                add("cmd:subcommand-multibyte", format!("{} with a {}-byte sub-command starting with U+{:04X}", name, len, ch.chars().next().map(|c| c as u32).unwrap_or(0)), cmd(&[name.as_bytes(), front.as_bytes(), b"x"]), true);
+                add("cmd:subcommand-multibyte", format!("{} with a {}-byte sub-command ending with U+{:04X}", name, len, ch.chars().next().map(|c| c as u32).unwrap_or(0)), cmd(&[name.as_bytes(), back.as_bytes()]), true);
+            }
+        }
+    }
+    for ch in ["\u{e9}", "\u{4e2d}", "\u{1f600}"] {
+        for len in 3..=8usize {
+            let pad = "GETSETX";
+            let nm = format!("{}{}", ch, &pad[..len.saturating_sub(ch.len())]);
+            add("cmd:subcommand-multibyte", format!("command name of {} bytes starting with U+{:04X}", nm.len(), ch.chars().next().map(|c| c as u32).unwrap_or(0)), cmd(&[nm.as_bytes(), b"k"]), true);
+        }
+    }
     for sub in ["GET", "SET", "x"] {
         add("cmd:config", format!("CONFIG {}", sub), cmd(&[b"CONFIG", sub.as_bytes(), b"slowlog_sample_rate", b"99999999999999999999"]), true);
     }
